@@ -69,7 +69,7 @@ class QueryCheck:
             traces = run.replay(chunk)
             for t in traces:
                 if "build_exc" in t:      # construction failed: every event is an exception
-                    t["evs"] = [dict(ev, exc="build:" + t["build_exc"][:60], rows=[], out="build", row=[], insts=[])
+                    t["evs"] = [dict(ev, exc="build:" + t["build_exc"][:60], rows=[], out="build", row=[], insts=[], symcalls=0)
                                 if ev["op"] != "cfg" else ev for ev in by_id[t["id"]]["evs"]]
             rej = run.validate(module, traces, strip=("build_exc", "build_tb", "family"))
             for t in traces:
@@ -970,3 +970,95 @@ def check_C12(tier, seed):
 
 
 CHECKS["C12"] = check_C12
+
+
+# ---------------------------------------------------------------------- C09
+AMBIENTS = ["none", "query", "rule", "nested"]
+
+
+def _hier_world(rng, n):
+    return {"objs": [{"cls": rng.choice(["Base", "Mid", "Leaf"]),
+                      "f": {"n": datasets.iv(rng.choice([0, 1, 2])), "m": datasets.iv(rng.choice([0, 1, 2]))}}
+                     for _ in range(n)]}
+
+
+def check_C09(tier, seed):
+    run = Run("C09", tier, seed)
+    quick = tier == "quick"
+    run.rule = ("every query / rule is built once per ambient mode and evaluated under it: outside any block, inside "
+                "symbolic_mode(), inside rule_mode(), inside both nested; quantifiers an (drained), the, infer; programs that "
+                "use function predicates, Predicate subclasses, HasType and instance construction in rule heads (G1, G2, G4 "
+                "programs filtered for predicates plus HasType programs over a class hierarchy); TLC judges each evaluation "
+                "against the denotation and all ambients must agree; user predicates must never observe symbolic mode; "
+                "non-trivial = predicate-using program with a non-trivial answer")
+    run.assumptions = QUERY_ASSUMPTIONS
+    qc = QueryCheck(run)
+    rng = qc.rng
+    outcomes = set()
+
+    def add(W, q, op):
+        qs = [copy.deepcopy(q) for _ in AMBIENTS]
+        evs = []
+        for k, amb in enumerate(AMBIENTS):
+            if op == "drain":
+                evs.append(dict(drain_ev(k + 1, eqto=1 if k else 0), ambient=amb))
+            else:
+                evs.append({"op": op, "qi": k + 1, "ambient": amb})
+        qc.add(W, qs, evs)
+
+    for nv in (1, 2):
+        progs = _programs(run, nv, quick, sim_quick=1500, sim_full=12000, leaf_quick=16 if nv == 1 else 12, leaf_full=45 if nv == 1 else 34)
+        progs = _with_pred(progs)
+        cap = 700 if quick else 15000
+        if len(progs) > cap:
+            progs = rng.sample(progs, cap)
+            run.exhaustive = False
+        for p in progs:
+            W, doms = _world_and_doms(rng, nv, quick)
+            add(W, mk_query(p, doms), "drain")
+            # the(...) over small domains
+            doms2 = [d[:rng.randint(1, 2)] for d in doms]
+            p2 = dict(p)
+            if nv == 2:
+                p2.update(desc="set_of", sel=[{"k": "var", "i": 1}, {"k": "var", "i": 2}])
+            q_the = mk_query(p2, doms2, quant="the")
+            if len(q_the["vars"]) == nv:
+                add(W, q_the, "the")
+    heads = run.export("GenQuery", "G4", "PROG", constants=dict(G="G4", NV=2, LeafLimit=12, MaxLeaves=2, MaxNot=1, NeedNot=False),
+                       count=False)
+    for p in rng.sample(heads, min(len(heads), 300 if quick else 6000)):
+        W, doms = _world_and_doms(rng, 2, quick)
+        q = {"vars": [{"cls": "A", "dom": doms[0]}, {"cls": "A", "dom": doms[1]}], "flats": [], "bound": [],
+             "desc": "entity", "quant": "infer", "sel": [], "cond": p["cond"], "head": p["head"], "varkeys": [1, 2]}
+        add(W, q, "infer")
+    # HasType over a hierarchy
+    x = {"k": "var", "i": 1}
+    for _ in range(150 if quick else 3000):
+        W = _hier_world(rng, rng.randint(2, 6))
+        dom = list(range(1, len(W["objs"]) + 1))
+        ht = {"k": "hastype", "e": x, "T": rng.choice(["Mid", "Leaf", "Base"])}
+        leaf = {"k": "cmp", "op": rng.choice(["ge", "eq", "lt"]), "l": {"k": "attr", "e": x, "a": "n"}, "r": {"k": "lit", "v": datasets.iv(1)}}
+        cond = rng.choice([ht, {"k": "not", "c": ht, "form": "fn"}, {"k": "and", "l": leaf, "r": ht, "form": "fn"},
+                           {"k": "or", "l": ht, "r": leaf, "form": "fn"}])
+        q = {"vars": [{"cls": "Base", "dom": dom}], "flats": [], "bound": [], "desc": "entity", "quant": "an", "sel": [x],
+             "cond": cond, "varkeys": [1]}
+        add(W, q, "drain")
+
+    def nontrivial(t):
+        ev = t["evs"][0]
+        q = t["qs"][0]
+        outcomes.add(ev["op"])
+        if ev.get("exc") != "none":
+            return None
+        if ev["op"] == "drain" and 0 < len(ev["rows"]) < domain_size(q):
+            return digest(["drain", q["cond"], q["sel"]])
+        if ev["op"] == "the":
+            return digest(["the", q["cond"], ev["out"]])
+        if ev["op"] == "infer" and 0 < len(ev["insts"]) < domain_size(q):
+            return digest(["infer", q["cond"], q["head"]])
+        return None
+    qc.execute(nontrivial)
+    return run.finish()
+
+
+CHECKS["C09"] = check_C09
